@@ -377,6 +377,7 @@ def setTransmissionData_ext(I, selfv, args, kwargs):
 
 def loads_recvbuf(I, buf):
     """T-PICKLE + G_chunk: the re-assembled bytes are dumps(entry) of one entry with index prevLogIdx+1"""
+    I.ctx.ghost['unpickled_buf'] = I.ctx.glist('unpickled_buf') + [buf]
     p = I.hooks['ae_prev']
     cid, t = FreshInt('chunkedCmd'), FreshInt('chunkedTerm')
     I.ctx.track('chunked.term', t)
@@ -436,6 +437,19 @@ def msg_append_entries(ctx, kind):
     ctx.prove(Eq(so.get('raftLastApplied'), old.get('raftLastApplied')) if kind != 'snapshot' else True, 'C04:append_entries.applied-unchanged')
     replies = [m for to, m in out if isinstance(m, PDict) and m.items.get('type') == 'next_node_idx']
     ctx.prove(And(*[Eq(to, node) for to, m in out]), 'C01:reply-target')
+    if kind in ('start', 'process', 'finish'):
+        # O11.4 reassembly: start resets the buffer to this chunk, process/finish append this chunk at the end, finish unpickles exactly
+        # the accumulated bytes and empties the buffer
+        rb0, rb1 = old.get('recvTransmission'), so.get('recvTransmission')
+        chunk = ctx.cell(msg).items['data']
+        if kind == 'start':
+            ctx.prove(rb1 is chunk or (isinstance(rb1, RecvBuf) and rb1.parts == (chunk,)), 'C11:O11.4.start-resets-the-buffer-to-this-chunk')
+        elif kind == 'process':
+            ctx.prove(isinstance(rb1, RecvBuf) and rb1.parts == rb0.parts + (chunk,), 'C11:O11.4.process-appends-the-chunk-in-order')
+        else:
+            ub = ctx.glist('unpickled_buf')
+            ctx.prove(len(ub) == 1 and isinstance(ub[0], RecvBuf) and ub[0].parts == rb0.parts + (chunk,), 'C11:O11.4.finish-unpickles-all-chunks-in-order')
+            ctx.prove(rb1 == '' or (isinstance(rb1, RecvBuf) and not rb1.parts), 'C11:O11.4.finish-empties-the-buffer')
     if kind in ('start', 'process'):
         ctx.prove(log_same(olog, log), 'C01+C11:O11.4.partial-chunk-leaves-log')
         ctx.prove(c1 == c0, 'C01+C04+C02:R8.partial-chunk-leaves-commit')
